@@ -149,6 +149,20 @@ CHECKS = {
         technique="TLA+ reference relation enumerated by TLC + replay into the code + TLC trace validation",
         engine="tlc-gen+trace",
     ),
+    "C06": dict(
+        category="model_checking",
+        text="Gen_Sites.tla enumerates all 2^3 subsets of reported sites and the decoy kinds (foreign rule at the same location, own rule "
+        "for a foreign file, resolved/closed status, empty result file) and derives the sites that must be rewritten; for every pinned "
+        "SAST codemod (Sonar, Semgrep SARIF, DefectDojo) a three-site program is built from the repository's own seed and the finding "
+        "its test reports is cloned per reported site (same line delta); one real CLI run per codemod holds one file per scenario; "
+        "Trace_Run judges: rewritten sites = reported sites, each change entry carries exactly the findings reported for its site, "
+        "unfixed findings are reported ones, nothing for decoys.",
+        design_ref="DESIGN.md §5 C06",
+        note="Trusted: TLC, site detection by unique trailing comments, corpus/c06_pins.json. Sonar/Semgrep CodeTF findings carry the "
+        "rule id as id, so identity beyond the rule is checked for DefectDojo only (and at API level in C12). Line shifts only.",
+        technique="TLC-enumerated scenarios replayed into the code + TLC trace validation",
+        engine="tlc-gen+trace",
+    ),
 }
 
 NOT_APPLICABLE: list[dict] = []
